@@ -752,6 +752,8 @@ fn break_config(params: &mut serde_json::Value, k: usize, grade_file: &str) {
         13 => {
             params["vehicles"][0].as_object_mut().unwrap().remove("type");
         }
+        // NaN and the infinities have no JSON form: the capacity arrives as null
+        14 | 15 if battery.is_some() => params["vehicles"][battery.unwrap()]["battery_capacity"] = serde_json::json!(if k == 14 { f64::NAN } else { f64::INFINITY }),
         _ => params["vehicles"][0]["type"] = serde_json::json!("hovercraft"),
     }
 }
@@ -1018,6 +1020,15 @@ fn oracle_inner(ctx: &mut Fails, idx: usize, sp: &Spec, oc: &Outcome, twin: Opti
         if any_bad && !oc.engine_rejected {
             ctx.fail(idx, "predict/cache-key-length", "a vehicle with a float_cache_policy whose key_precisions does not have two entries was built from configuration".to_string());
             return;
+        }
+    }
+    if let Some(c) = &sp.cfg {
+        // a battery capacity that is not a finite positive number is a configuration error
+        if let Some((id, v)) = c.library.iter().find(|(_, v)| v.kind != Kind::Ice && !(v.cap.is_finite() && v.cap > 0.0)) {
+            if !oc.engine_rejected {
+                ctx.fail(idx, "builder/battery-capacity-invalid", format!("vehicle v{} with battery_capacity {} {} was built from configuration; the vehicle named by the query starts with charge {:?} (as built) / {} (initial state)", id, v.cap, v.bunit, oc.built_soc, oc.init.soc));
+                return;
+            }
         }
     }
     if oc.engine_rejected {
@@ -1758,6 +1769,9 @@ fn gen_vehicle(rng: &mut Rng, models: &[String], memo: &mut HashMap<String, Vec<
         7 => *rng.pick(&[12.0, 60.0, 75.0, 100.0]),
         _ => 10f64.powf(rng.uniform(-3.0, 6.0)),
     };
+    // a battery capacity that is not a positive number: the builders must refuse it (zero makes the
+    // charge NaN, a negative capacity turns consumption into charging)
+    let cap = if kind != Kind::Ice && rng.chance(1, 16) { *rng.pick(&[0.0, -0.0, -5.0, -1.0e-6]) } else { cap };
     VehSpec { kind, rec, sustain, cap, bunit }
 }
 
@@ -1814,7 +1828,7 @@ fn generate_cfg(rng: &mut Rng, models: &[String], memo: &mut HashMap<String, Vec
     if sp.kind == Kind::Ice {
         sp.soc_override = None;
     }
-    sp.cfg = Some(CfgSpec { library, name, omit_edu, omit_etu, omit_sdu, bad_coord: rng.chance(1, 20), malformed: if rng.chance(1, 14) { Some(rng.below(14)) } else { None } });
+    sp.cfg = Some(CfgSpec { library, name, omit_edu, omit_etu, omit_sdu, bad_coord: rng.chance(1, 20), malformed: if rng.chance(1, 14) { Some(rng.below(16)) } else { None } });
     sp
 }
 
@@ -1999,7 +2013,10 @@ pub fn run(ctx: &mut Ctx) -> &'static str {
                     let bad = |r: &RecSpec| r.cache.as_ref().map(|(_, p)| p.len() != 2).unwrap_or(false);
                     bad(&v.rec) || v.sustain.as_ref().map(bad).unwrap_or(false)
                 });
+                let bad_capacity = cfg.library.iter().any(|(_, v)| v.kind != Kind::Ice && !(v.cap.is_finite() && v.cap > 0.0));
+                if bad_capacity { ctx.count("cfg_battery_capacity_not_positive"); }
                 if bad_policy { ctx.count("cfg_cache_policy_wrong_length"); }
+                let bad_policy = bad_policy || bad_capacity;
                 if valid_name && cfg.malformed.is_none() && !bad_policy && !sp.speeds.iter().any(|x| *x < 0.0) && strip_direct(&twin_out) != (if out.starts_with("built ") { out.splitn(2, " | ").nth(1).unwrap_or("") } else { out.as_str() }) {
                     ctx.fail(idx, "builder/in-process-twin", format!("the model built from configuration gives `{}` where the same vehicle constructed in-process gives `{}`", out.chars().take(300).collect::<String>(), strip_direct(&twin_out).chars().take(300).collect::<String>()));
                 }
